@@ -1022,8 +1022,11 @@ def run(ctx):
                        "starve-one / starve-job-k / workers-first / no-preemption); boundary corpus (ring full, round-buffer wrap incl. offset 1, LDM window "
                        "wrapped into, 3-4 threads in the serial section, empty jobs, aborts) x 10 families first, then seeded random cases; "
                        "the real code runs under the deterministic scheduler, its log is replayed through the extracted Coq model and compared after every "
-                       "critical section; evaluations = runs; non-trivial = at least 20 critical sections compared; distinct = distinct (set of thread "
-                       "positions + jobReady values reached, END/STUCK) signatures")
+                       "critical section; third wave: programs of several frames on one context with parameters (LDM + its parameters, jobSize, overlapLog, "
+                       "checksum, rsyncable, level, windowLog, block-size parameters), dictionaries (refPrefix / loadDictionary / refCDict) switched between the "
+                       "frames and mid-frame parameter changes, ZSTD_sizeof_CCtx queries, thread-pool switches (oracles only), and an assertion pass (the same "
+                       "code built with DEBUGLEVEL=1); evaluations = runs; non-trivial = at least 20 critical sections compared; distinct = distinct (set of "
+                       "thread positions + jobReady values reached, END/STUCK) signatures")
     runner = Runner(ctx, "o1")
     if ctx.replay_file:
         return replay(ctx, runner)
@@ -1069,7 +1072,8 @@ def run(ctx):
         "critical sections are atomic (lock discipline): the model's step is one critical section; data races inside or between C statements are outside a Gallina model (ThreadSanitizer build of the harness, thorough tier, is the supporting test)",
         "the deterministic scheduler implements POSIX mutex/condition semantics without spurious wake-ups; real scheduler/OS behaviour is outside",
         "job payloads (compressed sizes, allocation failures, LDM window trimming) are an oracle taken from the real run; the theorems quantify over every oracle",
-        "POOL_resize between frames (nbWorkers change) and ZSTDMT_freeCCtx are exercised by the harness oracles but not lock-stepped",
+        "POOL_resize between frames (nbWorkers change), thread-pool switches (ZSTD_CCtx_refThreadPool) and ZSTDMT_freeCCtx are exercised by the harness oracles but not lock-stepped",
+        "whether a worker-side allocation of an output / sequence buffer fails is the oracle's even when the pool holds a buffer (a pooled buffer of another size is freed and re-allocated)",
     ]
 
 
